@@ -146,3 +146,19 @@ pub fn summary_is_full_open(s: &Segment) -> bool {
     assert!(!s.is_closed, "summary_is_full_open used on a closed segment");
     s.size_bytes >= s.max_size_bytes
 }
+
+/// summary of `FilePartitionStorage::save_consumer_offset` (twin): records what would be written.
+/// The real write path (persister + model FS) is exercised by the get-after-store harnesses.
+pub static mut LAST_SAVED_OFFSET: Option<u64> = None;
+pub static mut SAVE_CALLS: u32 = 0;
+pub fn summary_save_consumer_offset(
+    _s: &crate::verif::sync::streaming::partitions::storage::FilePartitionStorage,
+    offset: u64,
+    _path: &str,
+) -> Result<(), IggyError> {
+    unsafe {
+        LAST_SAVED_OFFSET = Some(offset);
+        SAVE_CALLS += 1;
+    }
+    Ok(())
+}
